@@ -1054,6 +1054,12 @@ class VM:
 
     def _compare(self, a: JSValue, b: JSValue) -> Optional[int]:
         """Compare two values. Returns -1, 0, or 1, or None when either is NaN."""
+        # Objects are compared through their primitive value (hint "number")
+        if isinstance(a, JSObject):
+            a = self._to_primitive(a, "number")
+        if isinstance(b, JSObject):
+            b = self._to_primitive(b, "number")
+
         # Both strings: compare as strings
         if isinstance(a, str) and isinstance(b, str):
             if a < b:
